@@ -71,7 +71,14 @@ Seg(h, calls, j) ==
   IN [call   |-> h[a],
       cbs    |-> cbs,
       rets   |-> SelectSeq(body, LAMBDA e : e.ev = "runret"),
-      conns  |-> SelectSeq(SubSeq(h, 1, a), LAMBDA e : e.ev = "connect"),
+      \* every Connect call with the number of visits of this run that were complete when it was made: 0 for the calls made
+      \* before the run; a call made from inside a callback (dynamic wiring) counts for the routing decisions after it
+      conns  |-> LET pre == SelectSeq(SubSeq(h, 1, a), LAMBDA e : e.ev = "connect")
+                     inpos == PosWhere(body, LAMBDA e : e.ev = "connect")
+                     DoneBefore(k) == Cardinality({q \in 1..(k - 1) : body[q].ev = "post" /\ body[q].out = "ok"})
+                 IN TLCEval([q \in 1..Len(pre) |-> [flow |-> pre[q].flow, from |-> pre[q].from, act |-> pre[q].act, to |-> pre[q].to, at |-> 0]])
+                    \o TLCEval([q \in 1..Len(inpos) |-> [flow |-> body[inpos[q]].flow, from |-> body[inpos[q]].from, act |-> body[inpos[q]].act,
+                                                          to |-> body[inpos[q]].to, at |-> DoneBefore(inpos[q])]]),
       cidx   |-> IF canc = <<>> THEN 0 ELSE canc[1],   \* first cancelling callback (0: none)
       blocks |-> Blocks(cbs)]
 Segs(h)  == LET calls == Pos(h, "runcall")
@@ -86,6 +93,8 @@ DataThreaded(S) ==
       posts == PosWhere(all, LAMBDA e : e.ev = "post")
       LastBefore(i) == LET q == SelectSeq(posts, LAMBDA k : k < i) IN IF q = <<>> THEN 0 ELSE all[q[Len(q)]].wrote
   IN \A i \in 1..Len(all) : all[i].ev = "prep" => all[i].seen = LastBefore(i)
+
+ScriptedPanic(s) == \E i \in 1..Len(s.cbs) : s.cbs[i].ev \in {"prep", "exec", "post"} /\ s.cbs[i].out = "panic"
 
 \* callback events before the first prep of a run belong to no block
 Orphans(cbs) == LET P == BlockStarts(cbs)
@@ -146,9 +155,10 @@ RetOf(s)   == s.rets[1]
 (* ---------------------------------------------------------------------- *)
 \* the transition table is the history of Connect calls: the last Connect of a
 \* (flow, node, action) triple wins; a nil target (0) is an entry
-Entries(conns, f, n, a) == SelectSeq(conns, LAMBDA c : c.flow = f /\ c.from = n /\ c.act = a)
-HasEntry(conns, f, n, a) == Entries(conns, f, n, a) # <<>>
-Target(conns, f, n, a)   == LET m == Entries(conns, f, n, a) IN m[Len(m)].to
+\* (k: the number of visits complete at the moment of the lookup; only Connect calls made before that moment count)
+Entries(conns, f, n, a, k) == SelectSeq(conns, LAMBDA c : c.flow = f /\ c.from = n /\ c.act = a /\ c.at < k)
+HasEntry(conns, f, n, a, k) == Entries(conns, f, n, a, k) # <<>>
+Target(conns, f, n, a, k)   == LET m == Entries(conns, f, n, a, k) IN m[Len(m)].to
 
 RECURSIVE Walk(_, _, _, _)
 RECURSIVE WalkFlow(_, _, _, _, _, _, _)
@@ -168,8 +178,8 @@ WalkFlow(cfg, tbl, f, cur, acts, seen, last) ==
   ELSE LET r == Walk(cfg, tbl, cur, acts)
        IN IF r.cut
           THEN [visits |-> seen \o r.visits, rest |-> r.rest, act |-> NIL, cut |-> TRUE, nostart |-> r.nostart]
-          ELSE IF HasEntry(tbl, f, cur, r.act)
-               THEN WalkFlow(cfg, tbl, f, Target(tbl, f, cur, r.act), r.rest, seen \o r.visits, r.act)
+          ELSE IF HasEntry(tbl.conns, f, cur, r.act, tbl.tot - Len(r.rest))
+               THEN WalkFlow(cfg, tbl, f, Target(tbl.conns, f, cur, r.act, tbl.tot - Len(r.rest)), r.rest, seen \o r.visits, r.act)
                ELSE [visits |-> seen \o r.visits, rest |-> r.rest, act |-> r.act, cut |-> FALSE, nostart |-> FALSE]
 
 \* what the run recorded: visited leaves, and the normalised action of every completed visit
@@ -183,7 +193,9 @@ OnlyLastIncomplete(s) ==
   LET B == s.blocks
   IN \A i \in 1..(Len(B) - 1) : B[i].posts # <<>> /\ B[i].posts[1].out = "ok"
 
-Expected(cfg, s) == Walk(cfg, s.conns, s.call.node, ReturnedActs(s))
+\* the table as the interpreters need it: all Connect calls of the run with their timestamps, and the number of recorded actions
+Tbl(s) == [conns |-> s.conns, tot |-> Len(ReturnedActs(s))]
+Expected(cfg, s) == Walk(cfg, Tbl(s), s.call.node, ReturnedActs(s))
 
 \* the routing equation: visited leaves = the path determined by table and actions
 PathHolds(cfg, s) ==
@@ -217,19 +229,19 @@ Enter(cfg, stk, n) ==
   ELSE Enter(cfg, Append(stk, n), NodeOf(cfg, n).start)
 
 \* node n, run inside the flows stk, has finished with action a: the next flat state, or the end
-RECURSIVE Leave(_, _, _, _, _)
-Leave(cfg, tbl, stk, n, a) ==
+RECURSIVE Leave(_, _, _, _, _, _)
+Leave(cfg, tbl, stk, n, a, k) ==
   IF stk = <<>> THEN [end |-> TRUE, ok |-> TRUE, act |-> a, stk |-> <<>>, leaf |-> NIL]
   ELSE LET f == Last(stk) IN
-       IF HasEntry(tbl, f, n, a) /\ Target(tbl, f, n, a) # NIL
-       THEN LET e == Enter(cfg, stk, Target(tbl, f, n, a))
+       IF HasEntry(tbl.conns, f, n, a, k) /\ Target(tbl.conns, f, n, a, k) # NIL
+       THEN LET e == Enter(cfg, stk, Target(tbl.conns, f, n, a, k))
             IN [end |-> ~e.ok, ok |-> e.ok, act |-> NIL, stk |-> e.stk, leaf |-> e.leaf]
-       ELSE Leave(cfg, tbl, Front(stk), f, a)      \* flow f ends and presents its last action
+       ELSE Leave(cfg, tbl, Front(stk), f, a, k)      \* flow f ends and presents its last action
 
 RECURSIVE FlatSteps(_, _, _, _, _, _)
 FlatSteps(cfg, tbl, stk, leaf, acts, seen) ==
   IF acts = <<>> THEN [visits |-> Append(seen, leaf), rest |-> <<>>, act |-> NIL, cut |-> TRUE, nostart |-> FALSE]
-  ELSE LET nx == Leave(cfg, tbl, stk, leaf, Head(acts)) IN
+  ELSE LET nx == Leave(cfg, tbl, stk, leaf, Head(acts), tbl.tot - Len(Tail(acts))) IN
        IF nx.end
        THEN IF nx.ok THEN [visits |-> Append(seen, leaf), rest |-> Tail(acts), act |-> nx.act, cut |-> FALSE, nostart |-> FALSE]
                      ELSE [visits |-> Append(seen, leaf), rest |-> Tail(acts), act |-> NIL, cut |-> TRUE, nostart |-> TRUE]
@@ -242,7 +254,7 @@ FlatWalk(cfg, tbl, top, acts) ==
 
 \* the hierarchical interpreter and the flattened machine agree on this run's recorded actions
 FlatAgrees(cfg, s) ==
-  \E x \in {Walk(cfg, s.conns, s.call.node, ReturnedActs(s))} : \E y \in {FlatWalk(cfg, s.conns, s.call.node, ReturnedActs(s))} :
+  \E x \in {Walk(cfg, Tbl(s), s.call.node, ReturnedActs(s))} : \E y \in {FlatWalk(cfg, Tbl(s), s.call.node, ReturnedActs(s))} :
      x.visits = y.visits /\ x.rest = y.rest /\ x.cut = y.cut /\ x.nostart = y.nostart /\ (~x.cut => x.act = y.act)
 
 (* ---------------------------------------------------------------------- *)
@@ -280,9 +292,10 @@ C01_Clauses(cfg, S) ==
                        /\ (PhaseOk(b) /\ (b.fbs # <<>> \/ Last(b.execs).out = "ok")
                              => b.posts[1].exec = PhaseVal(b) /\ b.posts[1].eid)),
    \* exactly one of (non-empty action, error)
+   \* (a run in which a callback panicked - scripted by the scenario - need not return at all)
    retXor      |-> \A j \in 1..Len(S) :
-                     /\ HasRet(S[j])
-                     /\ (RetOf(S[j]).iserr <=> RetOf(S[j]).act = NIL),
+                     /\ HasRet(S[j]) \/ ScriptedPanic(S[j])
+                     /\ HasRet(S[j]) => (RetOf(S[j]).iserr <=> RetOf(S[j]).act = NIL),
    \* a run of a single leaf returns post's action (default for the empty action)
    retAction   |-> \A j \in 1..Len(S) :
                      (NodeOf(cfg, S[j].call.node).kind = "leaf" /\ HasRet(S[j])) =>
